@@ -88,6 +88,11 @@ func init() {
 		Rules: []func(*Prog, *Result){ruleC20},
 	})
 	register(PropSpec{
+		ID:    "C03",
+		Title: "Inheritance chain is resolved from filenames and $parent, base first",
+		Rules: []func(*Prog, *Result){ruleC03, ruleC03Strip, ruleBklMainInputs},
+	})
+	register(PropSpec{
 		ID:    "C09",
 		Title: "Evaluation is deterministic",
 		Rules: []func(*Prog, *Result){ruleMapRanges, ruleSortedMap, ruleGlobals, ruleNondetSources},
